@@ -86,4 +86,15 @@ CLAIMS = {
         "technique": "variant-map extraction by conditional constant propagation; end-of-input injection at each read "
                      "site with abstract path enumeration; constructor-site audit",
     },
+    "C12": {
+        "text": "Claimed (structural clauses, for all byte values): the five whitespace bytes and `;` comments (to LF or end of "
+                "input) are skipped by parse_whitespace; every trivia byte is in the terminator class of both symbol "
+                "scanners and of both is_delimiter predicates (classes extracted exactly over all 256 bytes + EOF), which "
+                "is necessary for trivia changes never to merge or split tokens; iteration terminates because the "
+                "iterators are fused by a sticky flag (tested on entry, set on every Some(Err) path) and each successful "
+                "item consumes input for all 257 first-byte cases. The yielded values are not decided.",
+        "note": _TB + "u8::is_ascii_whitespace's documented set.",
+        "technique": "byte-class extraction by conditional constant propagation over the input byte, exact subset checks "
+                     "between extracted classes, abstract path enumeration of the iterator bodies",
+    },
 }
